@@ -45,6 +45,7 @@ type JTripDesc struct {
 }
 
 type History struct {
+	vt.Env
 	Pool                   []JTripDesc
 	Feeds                  []JFeed
 	WindowStart, WindowEnd int64
@@ -492,6 +493,7 @@ func propC15(t *rapid.T) {
 		o.InsideWindow = true
 	}
 	h, ops := genHistory(t, o)
+	h.Env = genEnv(t)
 	var cls []string
 	for k := range ops {
 		cls = append(cls, k)
@@ -678,6 +680,7 @@ func propC14(t *rapid.T) {
 		o.MaxFeeds = 25
 	}
 	h, ops := genHistory(t, o)
+	h.Env = genEnv(t)
 	var cls []string
 	for k := range ops {
 		cls = append(cls, k)
@@ -708,4 +711,56 @@ func propC14(t *rapid.T) {
 		})
 	}
 	vt.Run(t, c14Rec, *h, checkC14)
+}
+
+// TestC14Long: one trip whose stop list has tens of thousands of entries (a trip that is re-published for days, a loop line):
+// whatever the journal does differently for long lists - a bounded search window, chunked storage - must not lose passed stops.
+// Stop ids are distinct, so the alignment of every update is determined.
+func TestC14Long(t *testing.T) {
+	rapid.Check(t, func(t *rapid.T) {
+		n := rapid.SampledFrom([]int{9000, 33000, 40000, 70000}).Draw(t, "stops")
+		h := &History{WindowStart: 0, WindowEnd: 1 << 40}
+		h.Pool = []JTripDesc{{ID: "006000_L..N01R", RouteID: "L", Dir: 1, StartDate: 1_700_006_400, StartTimeSec: 3600}}
+		tcur := int64(1_700_010_000)
+		mk := func(i int, base int64) JStop {
+			a, d := base+int64(i), base+int64(i)+30
+			s := JStop{StopID: fmt.Sprintf("L%05d", i), Arr: &a, Dep: &d}
+			if i%3 == 0 {
+				tr := fmt.Sprint(i % 4)
+				s.Track = &tr
+			}
+			return s
+		}
+		lo, hi := 0, n // the update covers stops lo..hi-1
+		nF := rapid.IntRange(2, 4).Draw(t, "feeds")
+		for fi := 0; fi < nF; fi++ {
+			tcur += int64(rapid.SampledFrom([]int{1, 30, 120}).Draw(t, "dt"))
+			if fi > 0 {
+				switch rapid.IntRange(0, 3).Draw(t, "op") {
+				case 0: // the vehicle passed a few stops
+					lo += rapid.SampledFrom([]int{1, 5, 100}).Draw(t, "passed")
+				case 1: // ... or very many
+					lo += (hi - lo) / 2
+				case 2: // short turn: only two stops left, deep inside the list
+					lo = min(hi-2, lo+rapid.SampledFrom([]int{100, 40000}).Draw(t, "shortTurnAt"))
+					hi = lo + 2
+				default: // growth at the back
+					lo += 3
+					hi += rapid.IntRange(1, 5).Draw(t, "grown")
+				}
+				lo = max(0, min(lo, hi-1))
+			}
+			u := JUpdate{Trip: 0, HasVehicle: true, VehicleID: "0L 0100 A/B"}
+			for i := lo; i < hi; i++ {
+				u.Stops = append(u.Stops, mk(i, tcur))
+			}
+			h.Feeds = append(h.Feeds, JFeed{CreatedAt: tcur, Updates: []JUpdate{u}})
+		}
+		h.Env = genEnv(t)
+		c14Rec.Eval(fmt.Sprintf("long-trip>=%d-stops", n))
+		c14Rec.NontrivialCase(vt.Fingerprint([]any{n, nF, lo, hi}), func() any {
+			return map[string]any{"stops_in_first_feed": n, "feeds": nF, "last_update_covers": []int{lo, hi}}
+		})
+		vt.Run(t, c14Rec, *h, checkC14)
+	})
 }
